@@ -1,4 +1,104 @@
-(* placeholder while the harness is built *)
-From Coq Require Import List NArith.
-From Pcfg Require Import TextFile Counters.
-Theorem C06_placeholder : 1 = 1. Proof. reflexivity. Qed.
+(* C06 - the saved grammar is the relative-frequency model of the segmentation.
+   Property theorems only (models: theories/Counters.v, TextFile.v; proofs:
+   CountersProofs.v, IoFacts.v, IoFloatFacts.v).  Exact arithmetic over Q
+   (QNum); the binary64 instance (FNum) of the SAME generic definitions is what
+   the correspondence compares hex-exactly with the files. *)
+From Coq Require Import String Ascii.
+From Coq Require Import List NArith ZArith QArith Bool Floats Permutation Sorted.
+From Pcfg Require Import ProbAlg F64 TextFile Counters CountersProofs IoFloatFacts IoFacts.
+Import ListNotations.
+
+(* A list written from the tally of an item sequence: the lines are
+   (v, count v / total) in most_common order; every item of the segmentation is
+   present exactly once; the probability is count / number of items; the list
+   is sorted non-increasing; items of equal count keep first-seen order (the
+   keys of the counter are the first occurrences, in order). *)
+Theorem C06_each_once_sorted : forall items : list str, items <> [] ->
+  let c := @of_counts QNum (tally items) in
+  let file := calc_probs c in
+  file = map (fun kv => (fst kv, (snd kv / total c)%Q)) (most_common c) /\
+  Permutation (most_common c) c /\
+  NoDup (map fst file) /\
+  (forall v, In v (map fst file) <-> In v items) /\
+  (forall v p, In (v, p) file ->
+     (p == inject_Z (Z.of_nat (count_str v items)) / inject_Z (Z.of_nat (length items)))%Q) /\
+  StronglySorted (fun a b => (snd b <= snd a)%Q) file /\
+  (forall q : Q, filter (fun kv => Qeq_bool (snd kv) q) (most_common c) = filter (fun kv => Qeq_bool (snd kv) q) c) /\
+  map fst c = nodup_first items.
+Proof. exact each_once_sorted. Qed.
+
+(* the same for ANY counter (e.g. the base structures with the Markov pseudo-count) *)
+Theorem C06_any_counter : forall (O : numops) (c : counter O),
+  calc_probs c = map (fun kv => (fst kv, ndiv O (snd kv) (total c))) (most_common c) /\
+  Permutation (most_common c) c /\
+  (NoDup (map fst c) -> NoDup (map fst (calc_probs c))) /\
+  (forall k, In k (map fst (calc_probs c)) <-> In k (map fst c)).
+Proof.
+  exact (fun O c => conj (calc_probs_eq O c) (conj (most_common_perm O c)
+                   (conj (calc_probs_keys_nodup O c) (calc_probs_keys_in O c)))).
+Qed.
+
+Theorem C06_sum_one_Q :
+  (forall c : counter QNum, ~ (total c == 0)%Q -> (qsum (map snd (calc_probs c)) == 1)%Q) /\
+  (forall items : list str, items <> [] -> (qsum (map snd (calc_probs (@of_counts QNum (tally items)))) == 1)%Q).
+Proof. exact sum_one_Q. Qed.
+
+(* coverage 1: no M; coverage 0: M is the only structure; otherwise M gets
+   N/coverage - N = N*(1/coverage - 1), appended after the trained structures,
+   and (when every password is supported) probability exactly 1 - coverage *)
+Theorem C06_markov_count : forall (cov : Q) (n : N) (c : counter QNum),
+  ((cov == 1)%Q -> @with_markov QNum cov n c = c) /\
+  ((cov == 0)%Q -> @with_markov QNum cov n c = [(M_key, 1%Q)]) /\
+  (~ (cov == 1)%Q -> ~ (cov == 0)%Q ->
+     @with_markov QNum cov n c = dict_set M_key (inject_Z (Z.of_N n) / cov - inject_Z (Z.of_N n))%Q c /\
+     (inject_Z (Z.of_N n) / cov - inject_Z (Z.of_N n) == inject_Z (Z.of_N n) * (1 / cov - 1))%Q /\
+     (~ In M_key (map fst c) ->
+        @with_markov QNum cov n c = c ++ [(M_key, (inject_Z (Z.of_N n) / cov - inject_Z (Z.of_N n))%Q)])) /\
+  ((0 < cov)%Q -> (cov < 1)%Q -> (0 < n)%N -> ~ In M_key (map fst c) -> (total c == inject_Z (Z.of_N n))%Q ->
+     exists p, In (M_key, p) (calc_probs (@with_markov QNum cov n c)) /\ (p == 1 - cov)%Q).
+Proof. exact markov_count. Qed.
+
+(* structures with an e-mail (E) or website (W) segment are counted in the raw
+   list only; grammar.txt never shows an 'E' or a 'W' *)
+Theorem C06_unsupported_only_raw : forall pws : list (list str),
+  (forall s, In s (map fst (sc_base (count_structs pws))) ->
+     exists ls, In ls pws /\ supported ls = true /\ s = structure ls) /\
+  (forall ls, In ls pws -> supported ls = true -> In (structure ls) (map fst (sc_base (count_structs pws)))) /\
+  (forall ls, In ls pws -> In (structure ls) (map fst (sc_raw (count_structs pws)))) /\
+  (Forall (fun ls => forallb wf_label ls = true) pws ->
+     forall s, In s (map fst (sc_base (count_structs pws))) -> ~ In 69%N s /\ ~ In 87%N s) /\
+  (forall ls, In ls pws -> supported ls = false -> In 69%N (structure ls) \/ In 87%N (structure ls)) /\
+  sc_base (count_structs pws) = tally (map structure (filter supported pws)) /\
+  sc_raw (count_structs pws) = tally (map structure pws) /\
+  sc_prince (count_structs pws) = tally (List.concat pws).
+Proof. exact unsupported_only_raw. Qed.
+
+(* the writer is a function of the counters and the options; the uuid is the
+   only other input; previous folder contents are irrelevant *)
+Theorem C06_deterministic : forall (O : numops) P sens (cov : num O) n u1 u2,
+  ro_files O (run_model O P sens cov n u1) = ro_files O (run_model O P sens cov n u2) /\
+  ro_lists O (run_model O P sens cov n u1) = ro_lists O (run_model O P sens cov n u2) /\
+  (forall old old' (cs : list (str * counter O)), save_indexed old cs = save_indexed old' cs).
+Proof. exact deterministic. Qed.
+
+(* binary64: dividing counts by their common positive total keeps the order
+   and lands in [0,1] (feeds the wf hypothesis of C01) *)
+Theorem C06_F64_division_monotone : forall a b t : PrimFloat.float, okF a -> okF b -> okF t ->
+  (0 <? t)%float = true -> (a <=? b)%float = true -> (b <=? t)%float = true ->
+  (a / t <=? b / t)%float = true /\ unitF (b / t).
+Proof. exact (fun a b t Ha Hb Ht H0 Hab Hbt => conj (pdiv_mono_F a b t Ha Hb Ht H0 Hab Hbt) (pdiv_unit_F b t Hb Ht H0 Hbt)). Qed.
+
+(* the hypotheses are satisfiable on non-trivial instances: a tally with a tie,
+   its probabilities 2/5 2/5 1/5 summing to 1; coverage 3/5 gives P(M) = 2/5 *)
+Theorem C06_example_tally : tally ex_items = [([65;49], 2); ([68;50], 2); ([79;49], 1)]%N.
+Proof. exact ex_tally. Qed.
+Theorem C06_example_hypotheses :
+  ex_items <> [] /\ ~ (total (@of_counts QNum (tally ex_items)) == 0)%Q /\ (0 < total (@of_counts QNum (tally ex_items)))%Q.
+Proof. exact ex_hyps. Qed.
+
+Print Assumptions C06_each_once_sorted.
+Print Assumptions C06_sum_one_Q.
+Print Assumptions C06_markov_count.
+Print Assumptions C06_unsupported_only_raw.
+Print Assumptions C06_deterministic.
+Print Assumptions C06_F64_division_monotone.
